@@ -74,7 +74,7 @@ def finish(sc, prof, index, nontrivial=None):
     return r
 
 
-def standard_main(prop, run_case, rule, level, assumptions, tier, seed, replay, quick_s, thorough_s, extra_case=None, min_nontrivial=2):
+def standard_main(prop, run_case, rule, level, assumptions, tier, seed, replay, quick_s, thorough_s, extra_case=None, min_nontrivial=2, before_pool=None):
     rep = R.Report(prop, tier, seed, level, rule, assumptions)
     flags_off = sorted(R.trigger_off_flags(prop))
     if replay:
@@ -86,6 +86,8 @@ def standard_main(prop, run_case, rule, level, assumptions, tier, seed, replay, 
         return rep.finish(min_nontrivial=0)
     from . import witnesses
     witnesses.replay_for(rep, prop)
+    if before_pool:
+        before_pool(rep)
     def gen():
         for i in range(1000000):
             c = dict(seed=seed, index=i, flags_off=flags_off, tier=tier)
